@@ -111,3 +111,22 @@ Theorem C04_code_split_skeleton_checks_lengths : forall (W : nat) (Ts : list nat
                = (Raise "AssertionError"%string, log').
 Proof. exact split_skeleton_assertion. Qed.
 Print Assumptions C04_code_split_skeleton_checks_lengths.
+
+(* ---- END TO END for the joint front end AS TRANSLATED (Proofs/InterpJoint.v): the two control skeletons LINKED - in the interpretation
+   of ticc_joint_labels the callee _split_combined_result is answered by RUNNING the interpreted splitter skeleton - with the main loop
+   answering any master labelling of the right length and range.  The property itself, for the code's own composition: one list per
+   series, in order, list i has exactly T_i entries, its first floor((W-1)/2) and last (W-1)-floor((W-1)/2) entries are -1, the rest
+   are labels in [0, K). ---- *)
+From Ticc Require Import Gen.G_front_joint Proofs.InterpJoint Proofs.FrontLabelsP.
+Theorem C04_code_joint_end_to_end : forall (W K : nat) (Ts : list nat) (labels : list Z) (lam beta lim eps procs m biased : val),
+  (1 <= W)%nat -> Forall (fun T => (W <= T)%nat) Ts -> length labels = list_sum (map (num_windows W) Ts) ->
+  Forall (in_range K) labels ->
+  exists (parts : list (list Z)) (log' : list (event val)),
+    g_ticc_joint_labels val veq getattr (oracle_joint W Ts K labels)
+      (VSeriesList Ts) (VInt (Z.of_nat W)) (VInt (Z.of_nat K)) lam beta lim eps procs m biased []
+    = (Ret (VResult parts), log')
+    /\ Forall2 (margin_ok W K) Ts parts
+    /\ map (@length Z) parts = Ts
+    /\ pad_front W = ((W - 1) / 2)%nat /\ pad_back W = ((W - 1) - (W - 1) / 2)%nat.
+Proof. exact joint_front_end_C04. Qed.
+Print Assumptions C04_code_joint_end_to_end.
